@@ -388,6 +388,10 @@ func (c19) Gen(rng *rand.Rand, tier string, k int) *Case {
 		doc = validCsv(rng, c.Entity[len(c.Entity)-1:], c.Entity[:10] == "csv-header", n)
 	}
 	c.Doc = mutate(rng, doc, nil)
+	if (c.Entity == "json" || c.Entity == "tiingo-getsince" || c.Entity == "tiingo-lastdate") && rng.Intn(10) == 0 {
+		// a document that starts with white space (pretty-printed, a proxy's blank line): still the same JSON
+		c.Doc = append([]byte([]string{" ", "\n", "\r\n\t", "  \n  "}[rng.Intn(4)]), c.Doc...)
+	}
 	switch rng.Intn(4) {
 	case 0:
 	case 1:
